@@ -47,6 +47,9 @@ pub const C08_SIGS: &[(&str, &str, &str, &str)] = &[
     ("own-tuple", "resource thing { constructor(a: u32); }", "l: list<tuple<u32, thing>>, t: tuple<thing, u8>", "u32"),
     ("borrow-nested", "resource thing { constructor(a: u32); }", "o: option<borrow<thing>>, r: result<borrow<thing>, u32>", "u32"),
     // (`list<borrow<thing>>` as an export parameter: the unmodified generator emits code that does not compile - E0506)
+    // heap data several levels deep, in parameters and results
+    ("deep", "", "a: u32", "result<option<list<option<string>>>, list<result<string, u32>>>"),
+    ("deep-params", "", "o: option<option<string>>, l: list<option<list<u8>>>", "option<result<string, list<string>>>"),
     // borrows of an imported resource lent to the export: dropped before task.return / before returning
     ("borrow", "resource thing { constructor(a: u32); }", "b: borrow<thing>, n: u32", ""),
     ("borrow-ret", "resource thing { constructor(a: u32); }", "b: borrow<thing>, c: borrow<thing>, l: list<u8>", "u32"),
